@@ -39,6 +39,7 @@ def main():
     ctx = Ctx()
     ctx.tier, ctx.seed, ctx.rng, ctx.out, ctx.prop = args.tier, seed, random.Random(seed * 1000003 + int(prop[1:])), out, prop
     ctx.thorough = args.tier == "thorough"
+    ctx.model_only = bool(args.model_only or os.environ.get("VERIF_MODEL_ONLY"))
 
     # ---- 1 build
     targets = list(getattr(mod, "LEAN_TARGETS", [f"AgpTpf.Properties.{m.stem}" for m in common.prop_modules(prop)] or [f"AgpTpf.Properties.{prop}"])) + ["driver"]
@@ -190,6 +191,8 @@ def main():
 
 def write_evidence(mod, ctx, build, aud, proof_ok, nviol, known_hits, infra=None):
     out = ctx.out
+    if getattr(ctx, "model_only", False):
+        return          # development aid (no proof build, no audit): never leaves an evidence file behind
     level = getattr(mod, "LEVEL", "proof")
     thms = aud.get("theorems", [])
     discharged = len([t for t in thms if t in aud.get("axioms", {}) and set(aud["axioms"][t]) <= common.ALLOWED_AXIOMS]) if proof_ok else 0
